@@ -361,6 +361,26 @@ def run_add_value_store(ctx, node_is_call, is_source, is_stale):
             cl.append(z3.And(a == L, b == W, k == pos_key(ctx, z3.IntVal(0))))
             cl.append(z3.And(a == n, b == W, k == pos_key(ctx, z3.IntVal(1))))
     ctx.check("post:E'-is-exactly-the-specified-rewrite(whole-graph)", z3.ForAll([a, b, k], esel(g.E, a, b, k) == z3.Or(cl)), props=["C09", "C05", "C03", "C08"])
+    # ---- WF_args (precondition of get_argument_nodes, established by Plan._call) survives the rewrite: consequences of the formula above ----
+    a2 = z3.Const("a2!pe", Node)
+    v = ctx.fresh(Node, "v")          # an arbitrary node that existed before
+    kk = ctx.fresh(Key, "kk")         # an arbitrary argument key
+    ctx.assume(z3.And(member(N0, v), kind(kk) != 0))
+    wa = ctx.fresh(Node, "wa")        # a witness predecessor
+    ctx.check("WF_args:an-argument-edge-into-an-existing-node-comes-from-an-old-one-with-the-same-key",
+              z3.Implies(esel(g.E, wa, v, kk), z3.Or(z3.And(esel(E0, wa, v, kk), wa != n), z3.And(wa == R, esel(E0, n, v, kk)))), props=["C02", "C09"])
+    ctx.check("WF_args:every-old-argument-edge-into-an-existing-node-survives-with-the-same-key(from-the-read-node-if-it-came-from-the-rewritten-node)",
+              z3.Implies(esel(E0, wa, v, kk), esel(g.E, z3.If(wa == n, R, wa), v, kk)), props=["C02", "C09"])
+    ctx.check("WF_args:an-argument-key-that-had-one-predecessor-still-has-one",
+              z3.Implies(z3.ForAll([a, a2], z3.Implies(z3.And(esel(E0, a, v, kk), esel(E0, a2, v, kk)), a == a2)),
+                         z3.ForAll([a, a2], z3.Implies(z3.And(esel(g.E, a, v, kk), esel(g.E, a2, v, kk)), a == a2))), props=["C02", "C09"])
+    p0, p1 = pos_key(ctx, z3.IntVal(0)), pos_key(ctx, z3.IntVal(1))
+    ctx.check("WF_args:the-read-call's-only-argument-edge-is-(store-literal,Pos0)",
+              z3.ForAll([a, k], z3.Implies(z3.And(esel(g.E, a, R, k), kind(k) != 0), z3.And(a == L, k == p0))), props=["C02", "C09"])
+    if W is not None and type(Ws[0]) is cls["Call"]:
+        ctx.check("WF_args:the-write-call's-argument-edges-are-exactly-(store-literal,Pos0),(node,Pos1)",
+                  z3.And(esel(g.E, L, W, p0), esel(g.E, n, W, p1),
+                         z3.ForAll([a, k], z3.Implies(z3.And(esel(g.E, a, W, k), kind(k) != 0), z3.Or(z3.And(a == L, k == p0), z3.And(a == n, k == p1))))), props=["C02", "C09"])
     return "ok"
 
 
@@ -376,7 +396,7 @@ for _c in (True, False):
         for _st in (True, False):
             unit(
                 f"rewrite._add_value_store[{'call' if _c else 'literal'},{'source' if _s else 'stored'},{'stale' if _st else 'fresh'}]",
-                props=["C09", "C05", "C03", "C08", "C13", "C14", "C15", "C19"],
+                props=["C09", "C05", "C03", "C08", "C13", "C14", "C15", "C19", "C02"],
                 functions=[(REL, "_add_value_store")],
                 assumptions=["T5 networkx MultiDiGraph operations as in contracts/mgraph.py", "contracts of Plan.lit / Plan._call / Plan.scope (contracts/plumbing.py)",
                              "acyclic plan: the node has no edge to itself"],
